@@ -1128,7 +1128,8 @@ def jobs(tier):
                 for typ in ('P', 'D', 'F'):
                     for t in QT:
                         for inj in QI:
-                            if via != 'direct_plain' and (inj in ('double', 'send') or typ == 'F'):
+                            if via != 'direct_plain' and (typ != 'P' or t not in ('local', 'net_disconnect', 'eof')
+                                                          or inj not in ('none', 'disconnect', 'remote_reset')):
                                 continue
                             outg(via, 'fallback', typ, 'ok', 'ok', t, inj, queued=q)
     if quick:
